@@ -268,7 +268,7 @@ def fnmocker_verify(chk, F, rule, cfg):
             info = dict(strip(e.data[2][1])[4]).get('info', ('unk', ''))
             chk.ob(rule, 'MockNeverCalled names this method', field_path(info) == (('param', 0, 1), ['info']), config=cfg, fn=fn, site='never-called.info', what='info %s' % show(info), found=show(info))
     chk.ob(rule, 'FnMocker::verify iterates its patterns', seen_iter, config=cfg, fn=fn, site='loop', unrecognised=True, what='no iteration found')
-    callers = [(f.defp, bb) for f, bb, t in F.callers_of('counter::CallCounter::verify')]
+    callers = [((f.root if f.kind in ('closure', 'promoted') else f.defp), bb) for f, bb, t in F.callers_of('counter::CallCounter::verify')]      # (a call inside a closure literal belongs to the function the closure is written in)
     chk.ob(rule, 'CallCounter::verify is only called by FnMocker::verify', len(callers) == 1 and callers[0][0] == 'fn_mocker::FnMocker::verify', config=cfg, site='callers', what='callers %s' % callers, found=callers)
 
 
@@ -289,7 +289,7 @@ def teardown_verifies_all(chk, F, rule, cfg, fn, paths):
             chk.ob(rule, 'every method of the mock is verified (complete traversal of fn_mockers) into one error vector', ok and errs[0] == 'ref' and errs[1][0][0] == 'local', config=cfg, fn=fn, site='verify-all',
                    what='teardown traversal %s' % names, found={'pipeline': names, 'errors': show(errs)})
     chk.ob(rule, 'teardown verifies the methods', seen, config=cfg, fn=fn, site='verify-all', unrecognised=True, what='no FnMocker::verify call')
-    callers = [(f.defp, bb) for f, bb, t in F.callers_of('fn_mocker::FnMocker::verify')]
+    callers = [((f.root if f.kind in ('closure', 'promoted') else f.defp), bb) for f, bb, t in F.callers_of('fn_mocker::FnMocker::verify')]
     chk.ob(rule, 'FnMocker::verify is only called by teardown', len(callers) == 1 and callers[0][0] == 'teardown::teardown', config=cfg, site='callers', what='callers %s' % callers, found=callers)
 
 
